@@ -1,11 +1,12 @@
 #!/bin/bash
-# tools/trymut.sh <worktree> <checks...>: confirm the demo on the scratch tree, then apply the patch to /repo,
-# run the given checks (no Lean build), and undo the patch.
+# tools/trymut.sh <worktree> <checks...>: confirm the demo on the scratch tree (with and without the patch, using
+# `git apply -R` — never `git stash`, which is shared between worktrees), then apply the patch to /repo, run the
+# given checks (no Lean build), and undo the patch.
 wt=$1; shift
 cd $wt
-echo "--- demo on changed tree"; PYTHONPATH=$wt timeout 900 /venv/bin/python _seed/demo.py > /tmp/demo_mut.log 2>&1; echo "exit $?"; tail -2 /tmp/demo_mut.log
-git stash push -q -- skglm; echo "--- demo on unchanged tree"; PYTHONPATH=$wt timeout 900 /venv/bin/python _seed/demo.py > /tmp/demo_base.log 2>&1; echo "exit $?"; git stash pop -q
 git -C $wt diff -- skglm > /tmp/mut.diff
+echo "--- demo on changed tree"; PYTHONPATH=$wt timeout 900 /venv/bin/python _seed/demo.py > /tmp/demo_mut.log 2>&1; echo "exit $?"; tail -2 /tmp/demo_mut.log
+git apply -R /tmp/mut.diff; echo "--- demo on unchanged tree"; PYTHONPATH=$wt timeout 900 /venv/bin/python _seed/demo.py > /tmp/demo_base.log 2>&1; echo "exit $?"; git apply /tmp/mut.diff
 cd /repo && git apply /tmp/mut.diff && git status --short | head -5
 cd /verif
 for c in "$@"; do ./check $c --no-lean 2>&1 | grep -E "^\[|VIOLATION|KNOWN" | cut -c1-260; done
